@@ -62,7 +62,7 @@ def strategy(draw):
         "female": sexes, "given": given,
         "scales": [draw(st.integers(-24, 24)) / 8.0 for _ in range(nsamp)],
         "sd": draw(st.sampled_from([0.0, 0.0, 0.05, 0.3])),
-        "amp": 0.0 if semantic else draw(st.sampled_from([0.0, 0.2, 0.2])) if given is None else draw(st.sampled_from([0.0, 0.2, 1.5])),
+        "amp": draw(st.sampled_from([0.0, 0.0, 0.2])) if semantic else draw(st.sampled_from([0.0, 0.2, 0.2])) if given is None else draw(st.sampled_from([0.0, 0.2, 1.5])),
         "anti": draw(st.sampled_from(["none", "full", "full", "empty"])),
         # a panel without sex-chromosome targets: sexes can then only be inferred from the antitarget files
         "t_sex": draw(st.integers(0, 3)) > 0,
@@ -369,10 +369,19 @@ def check_case(case):
         # Per-bin tolerance: a thorough run looks at ~1e5 noisy sex-chromosome bins, so 4 sigma would be exceeded by chance
         # (measured: 6 of 3200 cohorts); 6.5 sigma of the per-bin consensus (sd / sqrt(k)) is not (p ~ 1e-10 per bin).
         tol = max(6.5 * case["sd"] / math.sqrt(k), 2e-3) + (0.1 if on else 0.0)
+        if k >= 2 and on and case["sd"] == 0 and case["null_frac"] == 0:
+            # corrections on, samples identical up to a depth factor: whatever the corrections do, they do it to every
+            # sample alike, so the samples still agree with one another bin for bin (spread ~ 0)
+            for blk, bins, _f in blocks:
+                worst = max(((got_by[b[:3]][5], b[:3]) for b in bins if autosome_like(b[0])), default=(0.0, None))
+                if worst[0] > 5e-3:
+                    bad("consequence:spread", f"block {blk}: depth-only cohort with corrections on, yet spread {worst[0]!r} at {worst[1]}")
         if k >= 2 and on:
             # corrections on: the rolling-median corrections respond to bin composition, so single bins may move;
             # the chromosome-level statement is asserted on the median of the X (and Y) bins of each block
             for blk, bins, _f in blocks:
+                if case["amp"]:
+                    break  # a non-flat profile is itself reshaped by the corrections: only the spread clause above applies
                 for bare, want in (("X", -1.0 if case["male_ref"] else 0.0), ("Y", -1.0)):
                     vals = [got_by[b[:3]][4] for b in bins if (b[0][3:] if b[0].startswith("chr") else b[0]) == bare]
                     if vals and abs(M.median(vals) - want) > tol:
